@@ -269,7 +269,7 @@ static inline Plan gen_lifecycle(Rng rng, int nops_max, bool rich_before_cleanup
             else if (c < 80 && is_ctr(q.kind)) { Op &o = G.emit(OP_ENC, s); o.size = G.r.chance(1, 5) ? 0 : 1 + G.r.below(40); o.a = G.r.bytes(o.size); }
             else if (c < 86 && is_ctr(q.kind)) { Op &o = G.emit(OP_SETCTR, s); o.size = kind_bs(q.kind); o.a = G.r.bytes(o.size); }
             else if (c < 92 && is_ctr(q.kind)) { Op &o = G.emit(OP_SETTWEAK, s); o.size = 8; o.a = G.r.bytes(8); }
-            else if (is_par(q.kind)) { Op &o = G.emit(OP_PENC, s); o.size = kind_bs(q.kind) * G.r.below(5); o.a = G.r.bytes(o.size); if (q.kind == PM) o.b = G.r.bytes(o.size); }
+            else if (is_par(q.kind)) { Op &o = G.emit(G.r.chance(1, 2) || q.kind == PM ? OP_PENC : OP_PDEC, s); o.size = kind_bs(q.kind) * G.r.below(5); if (G.r.chance(1, 3)) { static const unsigned ps[] = {64, 128, 256, 192}; o.size = ps[G.r.below(4)]; } o.a = G.r.bytes(o.size); if (q.kind == PM) o.b = G.r.bytes(o.size); }
             else G.cleanup(s);
             continue;
         }
@@ -547,8 +547,8 @@ static inline Plan gen_errors(Rng rng) {
             Op o; o.slot = s; o.place = G.rand_place(); o.flags = F_INJECTED; unsigned bs = kind_bs(q.kind);
             switch (G.r.below(5)) {
             case 0: o.code = OP_SETKEY; o.size = is_mantis(q.kind) ? 16 : bs; o.a = G.r.bytes(o.size); o.rounds = 6; o.mode = 1; break;
-            case 1: o.code = is_ctr(q.kind) ? OP_SETCTR : OP_PENC; o.size = bs; o.a = G.r.bytes(bs); if (q.kind == PM) o.b = G.r.bytes(bs); break;
-            case 2: o.code = is_ctr(q.kind) ? OP_ENC : OP_PDEC; if (q.kind == PM) o.code = OP_PENC; o.size = bs * (G.r.chance(1, 4) ? 0 : 1 + G.r.below(4)); o.a = G.r.bytes(o.size); if (q.kind == PM) o.b = G.r.bytes(o.size); break;
+            case 1: o.code = is_ctr(q.kind) ? OP_SETCTR : OP_PENC; o.size = bs; if (o.code == OP_PENC && G.r.chance(1, 2)) { static const unsigned ps[] = {64, 128, 256, 192}; o.size = ps[G.r.below(4)]; } o.a = G.r.bytes(o.size); if (q.kind == PM) o.b = G.r.bytes(o.size); break;
+            case 2: o.code = is_ctr(q.kind) ? OP_ENC : OP_PDEC; if (q.kind == PM) o.code = OP_PENC; o.size = bs * (G.r.chance(1, 4) ? 0 : 1 + G.r.below(4)); if (G.r.chance(1, 3)) { static const unsigned ps[] = {64, 128, 256, 192}; o.size = ps[G.r.below(4)]; } o.a = G.r.bytes(o.size); if (q.kind == PM) o.b = G.r.bytes(o.size); break;
             case 3: o.code = is_ctr(q.kind) ? OP_SETTWEAK : OP_SETKEY; o.size = is_ctr(q.kind) ? 8 : (is_mantis(q.kind) ? 16 : bs); o.a = G.r.bytes(o.size); o.rounds = 5; o.mode = 0; break;
             default: o.code = (q.kind == CTR128 || q.kind == CTR64) ? OP_SETTKEY : OP_CLEANUP; o.size = bs; o.a = G.r.bytes(bs); if (o.code == OP_CLEANUP) { o.flags = 0; o.a.clear(); } break;
             }
